@@ -223,9 +223,9 @@ def gen_pull(rng, klass=None):
 
 
 def manifest_body(a):
-    m = {"layers": [{"digest": "sha256:" + sha(c), "size": len(c), "mediaType": "application/vnd.ollama.image.model"} for c in a["layers"]]}
+    m = {"layers": [{"digest": "sha256:" + sha(c), "size": len(c), "mediaType": "m"} for c in a["layers"]]}
     if a["config"] is not None:
-        m["config"] = {"digest": "sha256:" + sha(a["config"]), "size": len(a["config"]), "mediaType": "application/vnd.docker.container.image.v1+json"}
+        m["config"] = {"digest": "sha256:" + sha(a["config"]), "size": len(a["config"]), "mediaType": "c"}
     if a["mkind"] == "nolayers":
         m["layers"] = []
     if a["mkind"] == "nulllayer":
@@ -497,27 +497,61 @@ def gen_push_legacy(rng):
             head[sha(c)] = rng.choice([500, 403])
         elif r < 0.55:
             post[sha(c)] = rng.choice([500, 400])
+    patch_fail, commit_fail = {}, {}
+    ups = [c for c in layers + ([config] if config else []) if sha(c) not in head and sha(c) not in post]
+    if ups and rng.random() < 0.12:
+        # one failure that the legacy client retries after a real 1 s sleep (part upload or finalising PUT)
+        (patch_fail if rng.random() < 0.5 else commit_fail)[sha(rng.choice(ups))] = 1
     return {"kind": "push-legacy", "layers": [hx(c) for c in layers], "config": hx(config) if config else None, "head": head, "post": post,
-            "manifest": 200 if rng.random() < 0.85 else 500, "klass": "push-legacy"}
+            "patch_fail": patch_fail, "commit_fail": commit_fail, "manifest": 200 if rng.random() < 0.85 else 500, "klass": "push-legacy"}
+
+
+def slow_legacy_cases(rng, n):
+    """legacy pushes in which the registry never (or only at the last try) accepts the finalising PUT of one layer: the
+    client retries with sleeps of 1+2+4+8+16(+32) s, so each of these takes 31-63 s of real time.  Each is run in a
+    harness process of its own, started before and joined after the rest of the tier (wall time = max, not sum)."""
+    out = []
+    for k in range(n):
+        nl = 1 + k % 3
+        layers = list(dict.fromkeys(rnd_content(rng, rng.randint(1, 9)) for _ in range(nl)))
+        config = rnd_content(rng, rng.randint(1, 5)) if k % 2 else None
+        if config in layers:
+            config = None
+        allc = layers + ([config] if config else [])
+        victim = allc[k % len(allc)]
+        head = {sha(c): 200 for c in allc if c != victim and rng.random() < 0.3}
+        # k = 0 (the quick tier's case): every attempt fails; later ones also "fails five times, accepted at the sixth"
+        nfail = 6 if k % 3 != 2 else 5
+        out.append({"kind": "push-legacy", "layers": [hx(c) for c in layers], "config": hx(config) if config else None, "head": head, "post": {},
+                    "patch_fail": {}, "commit_fail": {sha(victim): nfail}, "manifest": 200, "klass": "push-legacy-slow"})
+    return out
 
 
 def legacy_events(c, o):
-    """(per-layer results in upload order, observed event list) from the request log of the scripted registry"""
+    """(layers in upload order, observed event list) from the request log of the scripted registry: a layer is accepted iff
+    the registry answered HEAD 200 (already there) or a finalising PUT with 2xx; it is refused iff HEAD/POST got an error
+    status or finalising PUTs were sent and none was accepted"""
     order = [bytes.fromhex(h) for h in c["layers"]] + ([bytes.fromhex(c["config"])] if c["config"] else [])
     ix = {sha(b): i for i, b in enumerate(order)}
-    events, results = [], []
-    for l in o.get("log", []):
+    seen, verdict = [], {}
+    man_at = None
+    for li, l in enumerate(o.get("log", [])):
         w = l.split(" ")
+        if w[0] in ("head", "post", "patch", "commit") and w[1] in ix and w[1] not in seen:
+            seen.append(w[1])
         if w[0] == "head" and int(w[2]) == 200:
-            events.append(("blob", ix[w[1]], True))
+            verdict[w[1]] = True
         elif w[0] == "head" and int(w[2]) != 404:
-            events.append(("blob", ix[w[1]], False))
+            verdict[w[1]] = False
         elif w[0] == "post" and int(w[2]) // 100 != 2:
-            events.append(("blob", ix[w[1]], False))
+            verdict[w[1]] = False
         elif w[0] == "commit":
-            events.append(("blob", ix[w[1]], True))
+            verdict[w[1]] = verdict.get(w[1], False) or int(w[2]) // 100 == 2
         elif w[0] == "manifest-put":
-            events.append(("manifest",))
+            man_at = li
+    events = [("blob", ix[d], verdict[d]) for d in seen if d in verdict]
+    if man_at is not None:
+        events.append(("manifest",))
     return order, events
 
 
@@ -553,7 +587,8 @@ def render_push(c, o):
         res = []
         for b in order:
             d = sha(b)
-            res.append(c["head"].get(d, 404) in (200, 404) and (c["head"].get(d, 404) == 200 or c["post"].get(d, 202) // 100 == 2))
+            res.append(c["head"].get(d, 404) in (200, 404) and (c["head"].get(d, 404) == 200 or
+                                                                (c["post"].get(d, 202) // 100 == 2 and c.get("commit_fail", {}).get(d, 0) < 6 and c.get("patch_fail", {}).get(d, 0) < 6)))
         obs = cq_list(["(EvBlob %s %s)" % (cq_nat(e[1]), cq_bool(e[2])) if e[0] == "blob" else "EvManifest" for e in events], "pev")
         return "chk_push_legacy %s %s" % (cq_list([cq_bool(x) for x in res], "bool"), obs)
     accepted, events = push_events(c, o)
@@ -640,6 +675,8 @@ def monitor_push_legacy(c, o):
     order, events = legacy_events(c, o)
     man = [i for i, e in enumerate(events) if e[0] == "manifest"]
     acc = {e[1] for e in events if e[0] == "blob" and e[2]}
+    if sum(1 for l in o["log"] if l.startswith("manifest-put")) > 1:
+        out.append(({"kind": "push-legacy", "class": "manifest-not-last"}, "PushModel: more than one manifest PUT: %s" % o["log"]))
     if man:
         if man[0] != len(events) - 1 or len(man) > 1 or not o["log"][-1].startswith("manifest-put"):
             out.append(({"kind": "push-legacy", "class": "manifest-not-last"}, "PushModel: manifest PUT is not the last request: %s" % o["log"]))
@@ -831,20 +868,58 @@ def run(ctx, only_cases=None):
                        "the registry publishes self-consistent manifests (size = length of the content with that digest)",
                        "digests are represented by their preimages in the model instance (no SHA-256 collision among test data)",
                        "body pieces of one response are processed atomically per response in the model (they touch only their own chunk's range)"]
+    # the implementation is built first so that the slow legacy-push histories (real back-off sleeps, 31-63 s each) can
+    # run in processes of their own while the proof stage and all other cases are handled; they are joined at the end
+    binp = ctx.go_build("c09")
+    if not binp:
+        ctx.proof_stage(["Blob"], "Blob/Properties_C09.v", extra_targets=["Blob/PullCorr.v"])
+        return
+    slow, procs = [], []
+    if only_cases is None:
+        import random
+        import subprocess
+        slow = slow_legacy_cases(random.Random(ctx.seed * 7919 + 9), 1 if ctx.quick() else 6)
+        for sc in slow:
+            p = subprocess.Popen([binp], stdin=subprocess.PIPE, stdout=subprocess.PIPE, stderr=subprocess.PIPE, text=True, env=vlib.goenv(), cwd=ctx.tmp)
+            p.stdin.write(json.dumps(to_harness(sc)) + "\n")
+            p.stdin.close()
+            procs.append(p)
     ctx.proof_stage(["Blob"], "Blob/Properties_C09.v", extra_targets=["Blob/PullCorr.v"])
     if not ctx.quick():
         ctx.coqchk(["V.Blob.Properties_C09"])
-    binp = ctx.go_build("c09")
-    if not binp:
-        return
     cases = only_cases if only_cases is not None else gen_cases(ctx)
     obs, err = ctx.run_jsonl(binp, [to_harness(c) for c in cases], timeout=1200)
     if obs is None or len(obs) != len(cases):
         ctx.obligation("harness c09 answered every case", False, err)
         ctx.proof_failures.append({"obligation": "correspondence: harness c09 did not answer every case", "detail": err})
+        for p in procs:
+            p.kill()
         return
-    items = []
     seen = set()
+    ok = process(ctx, binp, cases, obs, seen, "cases", rerun=True)
+    if procs:
+        sobs = []
+        for p in procs:
+            try:
+                out = p.stdout.read()
+                p.wait(timeout=200)
+                line = [l for l in out.split("\n") if l.strip().startswith("{")]
+                sobs.append(json.loads(line[0]) if line else {"harness_error": "no answer: " + p.stderr.read()[-500:]})
+            except Exception as ex:
+                p.kill()
+                sobs.append({"harness_error": "slow legacy push case: %s" % ex})
+        for sc, so in zip(slow, sobs):
+            if "harness_error" in so:
+                ctx.obligation("slow legacy-push harness process answered", False, str(so))
+                ctx.proof_failures.append({"obligation": "correspondence: slow legacy-push case did not answer", "detail": str(so)})
+                return
+        ctx.extra["slow_legacy_push"] = [{"commit_fail": sc["commit_fail"], "log_tail": so.get("log", [])[-4:], "err": so.get("err")} for sc, so in zip(slow, sobs)]
+        process(ctx, binp, slow, sobs, seen, "slow", rerun=False)
+
+
+def process(ctx, binp, cases, obs, seen, name, rerun):
+    """note every case, evaluate the monitor on the implementation's observation, then the model on the same cases"""
+    items = []
     for c, o in zip(cases, obs):
         ctx.note_case(dump({k: v for k, v in c.items() if k != "klass"}), nontrivial(c, o), c.get("klass"),
                       sample={"case": dump({k: v for k, v in c.items() if k not in ("attempts",)}), "impl": str(o)[:600]})
@@ -864,24 +939,31 @@ def run(ctx, only_cases=None):
                 ctx.count("result:" + (oa["err"] or "ok").split(":")[0])
             for pk in c.get("plankind", []):
                 ctx.count("plan:" + pk)
+        if c["kind"] == "push-legacy":
+            for k in ("patch_fail", "commit_fail"):
+                for n in c.get(k, {}).values():
+                    ctx.count("legacy:%s=%d" % (k, n))
         for sig, what in monitor(c, o):
             key = json.dumps(sig, sort_keys=True)
             if key in seen:
                 continue
             seen.add(key)
             small = shrink(ctx, binp, c, sig) if not vlib.match_known(ctx.known, sig) else c
-            so, _ = ctx.run_jsonl(binp, [to_harness(small)], timeout=60)
-            ctx.violation(sig, what, {"case": dump(small), "harness_case": to_harness(small), "impl": so[0] if so else None})
+            so = None
+            if rerun:
+                so, _ = ctx.run_jsonl(binp, [to_harness(small)], timeout=120)
+            ctx.violation(sig, what, {"case": dump(small), "harness_case": to_harness(small), "impl": so[0] if so else o})
         items.append(render(c, o))
-    bad, log = ctx.coq_eval(HEADER, items, per_file=12 if ctx.quick() else 40)
+    bad, log = ctx.coq_eval(HEADER, items, per_file=12 if ctx.quick() else 40, name=name)
     if bad is None:
-        ctx.obligation("correspondence: model evaluated on all cases", False, log)
+        ctx.obligation("correspondence: model evaluated on all %s" % name, False, log)
         ctx.proof_failures.append({"obligation": "correspondence evaluation failed in coqc", "detail": log})
-        return
-    ctx.disagreements_checked = len(items)
-    ctx.obligation("correspondence: model = implementation after every attempt on %d cases" % len(items), not bad)
+        return False
+    ctx.disagreements_checked += len(items)
+    ctx.obligation("correspondence: model = implementation after every attempt on %d %s" % (len(items), name), not bad)
     for i in bad[:10]:
         ctx.mismatch("Blob/PullCorr.%s" % items[i].split(" ")[0], dump(cases[i]), obs[i], items[i][:4000])
+    return True
 
 
 def replay(ctx, path):
